@@ -20,9 +20,11 @@
 package main
 
 import (
+	"bufio"
 	"encoding/json"
 	"fmt"
 	"math"
+	"os"
 	"regexp"
 	"sort"
 	"strings"
@@ -55,6 +57,8 @@ type history struct {
 	Exprs   []string `json:"exprs"`
 	Blocks  [][]op   `json:"blocks"`
 	Audit   bool     `json:"audit"`
+	Accts   []int    `json:"accts"` // further accounts to observe from the start
+	NNodes  int      `json:"nodes"` // node indexes 0..NNodes-1 observed from the start
 }
 
 type propObs struct {
@@ -241,7 +245,14 @@ func (w *world) tx(o op) pb.Transaction {
 		if o.B == 1 {
 			typ = repo.ZeroPermission
 		}
-		return hx.BvmTx(k, n, psm, "UpdateProposalStrategy", pb.String(modules[o.X]), pb.String(typ), pb.String(w.h.Exprs[o.E]), pb.String("r"))
+		mod, ex := "no_such_mgr", "a > 0.5 * t"
+		if o.X >= 0 && o.X < len(modules) {
+			mod = modules[o.X]
+		}
+		if o.E >= 0 && o.E < len(w.h.Exprs) {
+			ex = w.h.Exprs[o.E]
+		}
+		return hx.BvmTx(k, n, psm, "UpdateProposalStrategy", pb.String(mod), pb.String(typ), pb.String(ex), pb.String("r"))
 	case "guarded":
 		obj := w.addr(o.X)
 		switch o.B {
@@ -434,12 +445,21 @@ func (w *world) observe(rc [][2]int) stepObs {
 	return out
 }
 
-func runHistory(h *history, verbose bool) (out histOut) {
-	defer func() {
-		if e := recover(); e != nil {
-			out.Err = fmt.Sprintf("panic: %v", e)
-		}
-	}()
+type session struct {
+	w       *world
+	c       *hx.Chain
+	verbose bool
+}
+
+func (s *session) close() {
+	if s.c != nil {
+		s.c.Close()
+		s.c = nil
+	}
+}
+
+// start creates the chain, seeds weights, executes the seed block; returns admitted flags and the first observation
+func startSession(h *history, verbose bool) (s *session, admitted []int, init stepObs, err error) {
 	var strategies []*repo.Strategy
 	for i, m := range modules {
 		if i < len(h.Strat) && h.Strat[i][0] >= 0 {
@@ -453,21 +473,20 @@ func runHistory(h *history, verbose bool) (out histOut) {
 	if strategies == nil {
 		strategies = []*repo.Strategy{}
 	}
-	c, err := hx.NewChain(hx.ChainOpts{NumAdmins: h.N, AdminWeight: 2, Strategy: strategies, Quiet: true, EnableAudit: h.Audit})
-	if err != nil {
-		out.Err = err.Error()
-		return
+	c, e := hx.NewChain(hx.ChainOpts{NumAdmins: h.N, AdminWeight: 2, Strategy: strategies, Quiet: true, EnableAudit: h.Audit})
+	if e != nil {
+		return nil, nil, stepObs{}, e
 	}
-	defer c.Close()
 	w := &world{c: c, h: h, keys: map[int]crypto.PrivateKey{}, addr2: map[string]int{}, nonces: map[int]uint64{}, pidIdx: map[string]int{}, exprIx: map[string]int{}}
+	s = &session{w: w, c: c, verbose: verbose}
 	for i, e := range h.Exprs {
 		if _, dup := w.exprIx[normExpr(e)]; !dup {
 			w.exprIx[normExpr(e)] = i
 		}
 		if admittedSafe(e, h.N) {
-			out.Admitted = append(out.Admitted, 1)
+			admitted = append(admitted, 1)
 		} else {
-			out.Admitted = append(out.Admitted, 0)
+			admitted = append(admitted, 0)
 		}
 	}
 	for i := 0; i < h.N; i++ {
@@ -481,69 +500,103 @@ func runHistory(h *history, verbose bool) (out histOut) {
 			c.Ledger.SetState(constant.RoleContractAddr.Address(), []byte(contracts.RoleKey(r.ID)), data, nil)
 		}
 	}
+	for _, a := range h.Accts {
+		w.key(a)
+	}
+	for j := 0; j < h.NNodes; j++ {
+		w.key(300 + j)
+	}
 	// register every account mentioned by the history so that it is observed from the start
 	for _, b := range h.Blocks {
 		for _, o := range b {
-			w.key(o.C)
-			switch o.K {
-			case "reg_role", "freeze", "activate", "logout":
-				w.key(o.X)
-			case "reg_node", "logout_node":
-				w.key(300 + o.X)
-			case "guarded":
-				w.key(o.X)
-			}
+			s.mention(o)
 		}
 	}
 	// NVP nodes need a permitted appchain that exists
 	c.SeedAppchain("chainA", "", "", governance.GovernanceAvailable)
 	// an empty block commits the seeded weights
 	if ev := c.ExecBlock(nil, true, 20*time.Second); ev == nil {
-		out.Err = "executor did not answer (seed block)"
+		s.close()
+		return nil, nil, stepObs{}, fmt.Errorf("executor did not answer (seed block)")
+	}
+	return s, admitted, w.observe([][2]int{}), nil
+}
+
+func (s *session) mention(o op) {
+	w := s.w
+	w.key(o.C)
+	switch o.K {
+	case "reg_role", "freeze", "activate", "logout":
+		w.key(o.X)
+	case "reg_node", "logout_node":
+		w.key(300 + o.X)
+	case "guarded":
+		w.key(o.X)
+	}
+}
+
+func (s *session) block(b []op) (stepObs, error) {
+	w, c := s.w, s.c
+	var txs []pb.Transaction
+	for _, o := range b {
+		s.mention(o)
+		txs = append(txs, w.tx(o))
+	}
+	ev := c.ExecBlock(txs, true, 30*time.Second)
+	if ev == nil {
+		return stepObs{}, fmt.Errorf("executor did not answer")
+	}
+	rc := [][2]int{}
+	for i, o := range b {
+		r, err := c.Ledger.GetReceipt(txs[i].GetHash())
+		if err != nil {
+			rc = append(rc, [2]int{0, 9})
+			continue
+		}
+		if s.verbose {
+			w.raw = append(w.raw, fmt.Sprintf("%s c=%d x=%d p=%d b=%d -> %v %s", o.K, o.C, o.X, o.P, o.B, r.Status, string(r.Ret)))
+		}
+		if r.Status == pb.Receipt_SUCCESS {
+			rc = append(rc, [2]int{1, 0})
+			if isSubmit(o.K) {
+				gr := &governance.GovernanceResult{}
+				if json.Unmarshal(r.Ret, gr) == nil && gr.ProposalID != "" {
+					if _, seen := w.pidIdx[gr.ProposalID]; !seen {
+						w.pidIdx[gr.ProposalID] = len(w.pids)
+					}
+					// (an id handed out twice would be an orphan overwritten: still recorded as a new index)
+					w.pids = append(w.pids, gr.ProposalID)
+				}
+			}
+		} else {
+			rc = append(rc, [2]int{0, errClass(string(r.Ret))})
+		}
+	}
+	return w.observe(rc), nil
+}
+
+func runHistory(h *history, verbose bool) (out histOut) {
+	defer func() {
+		if e := recover(); e != nil {
+			out.Err = fmt.Sprintf("panic: %v", e)
+		}
+	}()
+	s, adm, init, err := startSession(h, verbose)
+	if err != nil {
+		out.Err = err.Error()
 		return
 	}
-	out.Init = w.observe([][2]int{})
+	defer s.close()
+	out.Admitted, out.Init = adm, init
 	for _, b := range h.Blocks {
-		var txs []pb.Transaction
-		for _, o := range b {
-			txs = append(txs, w.tx(o))
-		}
-		ev := c.ExecBlock(txs, true, 30*time.Second)
-		if ev == nil {
-			out.Err = "executor did not answer"
+		so, err := s.block(b)
+		if err != nil {
+			out.Err = err.Error()
 			return
 		}
-		rc := [][2]int{}
-		for i, o := range b {
-			r, err := c.Ledger.GetReceipt(txs[i].GetHash())
-			if err != nil {
-				rc = append(rc, [2]int{0, 9})
-				continue
-			}
-			if verbose {
-				w.raw = append(w.raw, fmt.Sprintf("%s c=%d x=%d p=%d b=%d -> %v %s", o.K, o.C, o.X, o.P, o.B, r.Status, string(r.Ret)))
-			}
-			if r.Status == pb.Receipt_SUCCESS {
-				rc = append(rc, [2]int{1, 0})
-				if isSubmit(o.K) {
-					gr := &governance.GovernanceResult{}
-					if json.Unmarshal(r.Ret, gr) == nil && gr.ProposalID != "" {
-						if _, seen := w.pidIdx[gr.ProposalID]; !seen {
-							w.pidIdx[gr.ProposalID] = len(w.pids)
-							w.pids = append(w.pids, gr.ProposalID)
-						} else {
-							// a proposal id handed out twice (orphan overwritten): record it as a new index
-							w.pids = append(w.pids, gr.ProposalID)
-						}
-					}
-				}
-			} else {
-				rc = append(rc, [2]int{0, errClass(string(r.Ret))})
-			}
-		}
-		out.Steps = append(out.Steps, w.observe(rc))
+		out.Steps = append(out.Steps, so)
 	}
-	out.Raw = w.raw
+	out.Raw = s.w.raw
 	return
 }
 
@@ -597,6 +650,30 @@ func decideOne(in decideIn) (out decideOut) {
 	return
 }
 
+// linesFlush is hx.Lines with a flush after every answer (interactive use)
+func linesFlush(f func(line []byte) (interface{}, error)) error {
+	sc := bufio.NewScanner(os.Stdin)
+	sc.Buffer(make([]byte, 1<<20), 1<<28)
+	w := bufio.NewWriterSize(os.Stdout, 1<<20)
+	enc := json.NewEncoder(w)
+	for sc.Scan() {
+		if len(sc.Bytes()) == 0 {
+			continue
+		}
+		out, err := f(sc.Bytes())
+		if err != nil {
+			return err
+		}
+		if err := enc.Encode(out); err != nil {
+			return err
+		}
+		if err := w.Flush(); err != nil {
+			return err
+		}
+	}
+	return sc.Err()
+}
+
 func main() {
 	_ = math.MaxInt64
 	cmds := map[string]func(args []string) error{}
@@ -608,6 +685,62 @@ func main() {
 				return nil, err
 			}
 			return runHistory(h, verbose), nil
+		})
+	}
+	// interactive: header line -> {"init":..,"admitted":..}; {"ops":[..]} -> step observation; {"end":true} -> {"end":true}
+	cmds["gov-i"] = func(args []string) error {
+		var cur *session
+		defer func() {
+			if cur != nil {
+				cur.close()
+			}
+		}()
+		return linesFlush(func(line []byte) (res interface{}, err error) {
+			defer func() {
+				if e := recover(); e != nil {
+					res, err = map[string]interface{}{"err": fmt.Sprintf("panic: %v", e)}, nil
+				}
+			}()
+			var probe struct {
+				Ops []op `json:"ops"`
+				End bool `json:"end"`
+				N   int  `json:"n"`
+			}
+			if err := json.Unmarshal(line, &probe); err != nil {
+				return nil, err
+			}
+			switch {
+			case probe.End:
+				if cur != nil {
+					cur.close()
+					cur = nil
+				}
+				return map[string]interface{}{"end": true}, nil
+			case probe.N > 0:
+				if cur != nil {
+					cur.close()
+					cur = nil
+				}
+				h := &history{}
+				if err := json.Unmarshal(line, h); err != nil {
+					return nil, err
+				}
+				s, adm, init, err := startSession(h, false)
+				if err != nil {
+					return map[string]interface{}{"err": err.Error()}, nil
+				}
+				cur = s
+				return map[string]interface{}{"init": init, "admitted": adm}, nil
+			default:
+				if cur == nil {
+					return map[string]interface{}{"err": "no session"}, nil
+				}
+				so, err := cur.block(probe.Ops)
+				if err != nil {
+					return map[string]interface{}{"err": err.Error()}, nil
+				}
+				return so, nil
+			}
 		})
 	}
 	cmds["decide"] = func(args []string) error {
